@@ -457,6 +457,8 @@ impl BufferedDatabaseWriter {
         thread::spawn(move || {
             while let Some(mut buffer) = receive_buffer.blocking_recv() {
                 let result = Self::process_batch_write(&mut buffer, &conn);
+                #[cfg(feature = "verif")]
+                let _ = crate::verif_hooks::fault("ack.before");
                 match result {
                     Ok(_) => {
                         for msg in buffer {
@@ -607,8 +609,19 @@ impl BufferedDatabaseWriter {
         let mut daily_log = DailyMutations::default();
         let mut optimize = false; //flag to run the optimize task outside a transaction
 
+        #[cfg(feature = "verif")]
+        {
+            crate::verif_hooks::gate("writer.before_batch");
+            crate::verif_hooks::writer_conn(conn);
+            crate::verif_hooks::fault("batch.begin")?;
+        }
         conn.execute("BEGIN TRANSACTION", [])?;
         for query in buffer {
+            #[cfg(feature = "verif")]
+            if let Err(e) = crate::verif_hooks::fault("batch.item") {
+                conn.execute("ROLLBACK", [])?;
+                return Err(e);
+            }
             match query {
                 WriteMessage::Deletion(query, _) => {
                     if let Err(e) = query.delete(conn) {
@@ -704,8 +717,14 @@ impl BufferedDatabaseWriter {
             }
         }
         //at the end of the batch, update the daily log with all room dates that needs to be recomputed
+        #[cfg(feature = "verif")]
+        crate::verif_hooks::fault("batch.before_marks")?;
         daily_log.write(conn)?;
+        #[cfg(feature = "verif")]
+        crate::verif_hooks::fault("batch.before_commit")?;
         conn.execute("COMMIT", [])?;
+        #[cfg(feature = "verif")]
+        let _ = crate::verif_hooks::fault("batch.after_commit");
 
         // run the PRAGMA optimize; outside the transaction
         if optimize {
@@ -722,6 +741,15 @@ impl BufferedDatabaseWriter {
         }
 
         Ok(())
+    }
+
+    /// verification entry point: the private batch function, unchanged
+    #[cfg(feature = "verif")]
+    pub fn verif_process_batch_write(
+        buffer: &mut Vec<WriteMessage>,
+        conn: &Connection,
+    ) -> std::result::Result<(), rusqlite::Error> {
+        Self::process_batch_write(buffer, conn)
     }
 
     ///
